@@ -305,7 +305,7 @@ def check_sympy_value(w, rep):
         (rep.fail if isinstance(ex, InterpRaise) else rep.incomplete)(R, inst, "%s" % (ex,), where=W)
     finally:
         ns._cse = None
-    rep.floor(R, 20)
+    rep.floor(R, 60)      # 26 sympy-side cases + 41 opcodes + 9 constants + symbol and matrix cases on the tree of 2026-10-04
     return all_ok
 
 
